@@ -525,6 +525,65 @@ def SentinelOp.method (P : Params) : SentinelOp → Method Sentinel
   | .deposit => sentinelDeposit
   | .withdraw => sentinelWithdraw
 
+/-! ### liquidity.go: stake entries only (reward pools, administration and time challenges excluded) -/
+
+structure LStakeE where
+  amount : Nat
+  tok : Tok
+  weighted : Nat
+  start : Int
+  revoke : Int
+  expiration : Int
+  deriving DecidableEq, Repr
+
+structure Liquidity where
+  entries : List ((Addr × Hash) × LStakeE) := []   -- key (stake address, id)
+  tuples : List (Tok × Nat) := []                  -- LiquidityInfo.TokenTuples: stakeable token → minimal amount (set by the administrator)
+  deriving Repr
+
+/-- getWeightedLiquidityStakeAmount: LiquidityStakeWeights[stakingTime / unit] * amount -/
+def weightedLiquidityStake (P : Params) (amount : Nat) (duration : Int) : Nat :=
+  ZV.Gen.LiquidityStakeWeights.getD (duration.tdiv P.stakeTimeUnit).toNat 0 * amount
+
+/-- LiquidityStakeMethod.ReceiveBlock: the first tuple of the sent token decides -/
+def liquidityStake (P : Params) (duration : Int) : Method Liquidity := fun s c =>
+  if duration < P.stakeTimeMin ∨ duration > P.stakeTimeMax ∨ duration.tmod P.stakeTimeUnit ≠ 0 then none
+  else match lookup c.token s.tuples with
+    | none => none
+    | some minAmount =>
+      if c.amount < minAmount then none
+      else
+        let e : LStakeE := ⟨c.amount, c.token, weightedLiquidityStake P c.amount duration, c.now, 0, c.now + duration⟩
+        some ({ s with entries := put (c.sender, c.hash) e s.entries }, [])
+
+/-- CancelLiquidityStakeMethod.ReceiveBlock -/
+def cancelLiquidityStake (id : Hash) : Method Liquidity := fun s c =>
+  if c.amount ≠ 0 then none
+  else match lookup (c.sender, id) s.entries with
+    | none => none
+    | some e =>
+      if e.expiration > c.now then none
+      else some ({ s with entries := put (c.sender, id) { e with revoke := c.now, amount := 0 } s.entries },
+                 [⟨c.sender, e.tok, e.amount, false⟩])
+
+/-- BurnZnnMethod.ReceiveBlock (accelerator spork active; `isSpork` = the caller is the spork address, checked by
+    ValidateSendBlock): burns `amount` ZNN out of the contract's balance, whatever that balance is made of. The Go
+    method's own "balance ≥ amount, else error" is the funds check of `applyPayout` followed by the refund. -/
+def liquidityBurnZnn (amount : Nat) (isSpork : Bool) : Method Liquidity := fun s _ =>
+  if !isSpork then none else some (s, [⟨tokenContract, znnTok, amount, true⟩])
+
+/-- what the liquidity contract owes its stakers in one token -/
+def liquidityOwed (s : Liquidity) (tok : Tok) : Nat := total (fun e => if e.tok = tok then e.amount else 0) s.entries
+
+inductive LiquidityOp where
+  | stake (duration : Int)
+  | cancel (id : Hash)
+  deriving Repr
+
+def LiquidityOp.method (P : Params) : LiquidityOp → Method Liquidity
+  | .stake d => liquidityStake P d
+  | .cancel id => cancelLiquidityStake id
+
 /-! ### vm.go: generateEmbeddedReceive / rollbackEmbedded -/
 
 abbrev Bal := List (Tok × Nat)
